@@ -193,6 +193,68 @@ def end_token_phase(ev, rep, tmp):
 
 TRACE_END_CFG = 'SPECIFICATION Spec\nINVARIANT VerdictOk\nCHECK_DEADLOCK FALSE\n'
 
+# ---- dynamic Earley lexers over multi-character terminals: the error is not reported after a character nothing can match ----
+COVER_GRAMMARS = [
+    ('start: STRING "x"\nSTRING: /"[^"]*"/\nCOMMENT: /#[^\\n]*/\n%ignore COMMENT\n%ignore " "\n',
+     ['"a#b" y and more text', '"a#b" x', '"a b" y zz', '"#" ? x', '"a" # c\ny', '"ab" x ?', 'x', '"a#b"']),
+    ('start: (WORD | NUM)+\nWORD: /[a-c]+/\nNUM: /[0-9]+/\nIG: /-+[a-c]*/\n%ignore IG\n%ignore " "\n',
+     ['ab 12 ?? ab', 'a-b-c ? d', 'ab--c 1 ! 2 3', '--ab ?', 'abc', '?', 'a -- ?? -- b']),
+    ('start: A B+\nA: "ab"\nB: "ba" | "b"\nSKIP: /a+b?/\n%ignore SKIP\n',
+     ['abba?ba', 'abaab?b', 'ab?', 'abbaa!bb', 'abb']),
+]
+
+
+def cover_case(job):
+    import logging
+    import re
+    logging.disable(logging.CRITICAL)
+    from lark import Lark
+    from lark.exceptions import UnexpectedInput
+    g, text, lexer = job
+    p = Lark(g, parser='earley', lexer=lexer)
+    ign = set(p.ignore_tokens)
+    langs, ignores = {}, []
+    for t in p.terminals:
+        pat = re.compile(t.pattern.to_regexp())
+        subs = sorted({text[s0:e0] for s0 in range(len(text)) for e0 in range(s0 + 1, len(text) + 1) if pat.fullmatch(text, s0, e0)})
+        enc = [[ord(ch) for ch in w] for w in subs]
+        if t.name in ign:
+            ignores.append(enc)
+        else:
+            langs[str(t.name)] = enc
+    rules = [[str(r.origin.name), [str(x.name) for x in r.expansion]] for r in p.rules]
+    cls, pos = '', -1
+    try:
+        with O.budget(20):
+            p.parse(text)
+    except UnexpectedInput as e:
+        cls, pos = type(e).__name__, e.pos_in_stream if isinstance(e.pos_in_stream, int) else -1
+    except Exception as e:
+        cls = 'EXC:' + type(e).__name__
+    return {'rules': rules, 'langs': langs, 'ignores': ignores, 'text': [ord(ch) for ch in text], 'complete': lexer == 'dynamic_complete',
+            'cls': cls, 'pos': pos, 'grammar': g, 'textstr': text, 'lexer': lexer}
+
+
+def cover_phase(tier, rng, ev, rep, tmp):
+    jobs = [(g, t, lx) for g, texts in COVER_GRAMMARS for t in texts for lx in ('dynamic', 'dynamic_complete')]
+    for g, texts in COVER_GRAMMARS:
+        alpha = sorted(set(''.join(texts)))
+        for _ in range(C.scale(60 if tier == 'quick' else 600)):
+            t = ''.join(rng.choice(alpha) for _ in range(rng.randint(1, 14)))
+            jobs.append((g, t, rng.choice(['dynamic', 'dynamic_complete'])))
+    cases = C.pmap(cover_case, jobs)
+    ev.count('dynamic_multichar_rejections', sum(1 for c in cases if c['cls']))
+    ev.count('dynamic_multichar_parses', len(cases))
+    path = C.write_batch({'cases': [{k: c[k] for k in ('rules', 'langs', 'ignores', 'text', 'complete', 'cls', 'pos')} for c in cases]}, tmp, 'c08_xscan.json')
+    res = C.tlc('TraceXScan', TRACE_END_CFG, env={'VERIF_BATCH': path}, workers=8, continue_=True, timeout=1500)
+    C.tlc_must_run(res, 'TraceXScan')
+    ev.add_tlc('TraceXScan', res, 'trace')
+    os.remove(path)
+    for v in sorted(set(tuple(x) for x in res.verdicts)):
+        c = cases[int(v[0]) - 1]
+        rep.violation({'property': PID, 'clause': 'dynamic:' + v[2], 'grammar': c['grammar'], 'text': c['textstr'], 'config': 'earley/' + c['lexer'],
+                       'reported': [c['cls'], c['pos']]})
+
 
 def known_matcher(fnd, case):
     m = fnd.get('match', {})
@@ -243,6 +305,9 @@ def body(tier, seed, replay):
         if replay and str(json.load(open(replay)).get('clause', '')).startswith('postlex:'):
             end_token_phase(ev, rep, tmp)
             return rep.finish()
+        if replay and str(json.load(open(replay)).get('clause', '')).startswith('dynamic:'):
+            cover_phase(tier, rng, ev, rep, tmp)
+            return rep.finish()
         if replay:
             case = json.load(open(replay))
             got = observe_case({'family': case['family'], 'gtext': case['grammar'], 'inputs': [tuple(case['w'])], 'budget': 3})
@@ -269,6 +334,7 @@ def body(tier, seed, replay):
                 ev.sample({'grammar': c['gtext'], 'text': F.to_text(inp['w']), 'observed': inp['obs'][:3]})
         judge(cases, ev, rep, tmp, 'sweep')
         end_token_phase(ev, rep, tmp)
+        cover_phase(tier, rng, ev, rep, tmp)
         selftest(ev, cases, tmp)
         if ev.cov['counts'].get('rejections', 0) < 5000:
             raise C.MachineryFailure('vacuity: %s' % ev.cov['counts'])
